@@ -30,6 +30,11 @@ CLAIMS = {
         technique="Lean 4 proofs about a model of the OpenMP build (round-robin link->thread assignment over any activation history, per-thread pair lists, per-thread copy cells, accumulation as ANY interleaving of atomic +=, serial merge that zeroes the copies, slot reuse across stages): partition, commutation, merge = serial sum, no leak, independence of the thread count; correspondence of the real OpenMP binary's link->thread assignment and per-thread pair lists with the model; serial-vs-OpenMP bit-identity runs for T in {1,2,4,8,16}",
         text="C20_assignment/round_robin, C20_partition_links/pairs, C20_run_independent (every interleaving of the threads' accumulation steps gives the same copies), C20_merge(_pointwise), C20_steps(_every), C20_equal, C20_thread_count_independent, C20_layout_disjoint; the real OpenMP flavour assigns links as the model says, its per-thread lists partition the serial list, and every particle datum equals the serial flavour's bit for bit (exact-arithmetic regime) for every explored scenario, thread count and repetition. PARTIAL: that real threads touch only their own copies (no data race) is assumed by the model; only the repeated identical runs speak for it.",
         note=BASE_NOTE + "Hand-written model; the tie is the correspondence with a second build flavour (-fopenmp) of the same tree. Module kinds outside the scenario generator (thermostats, DPD, tensor symbols) are not covered."),
+    "C03": dict(
+        level="proof", design="DESIGN.md section 3, C03 (PARTIAL: clashing variable names; gcc/libm trusted)",
+        technique="Lean 4 proofs about an executable model of the expression language (character-level parser driven by the operator table regenerated from the source in registration order, interpreter over Rat, C emitter producing the same strings as toC(), reader/evaluator for the emitted C subset): emitter soundness against the interpreter for every well-formed tree, absence of integer-typed divisions in emitted text, totality of the parser, usual precedence/associativity with redundant parentheses, documented meaning of every operator and function; correspondence of parse trees, types, every emitted C string, interpreter values and gcc-compiled values with the real code; independent reference evaluator as oracle",
+        text="C03_emit_sound(_parsed): for every well-formed tree, component and environment the value of the emitted C text equals the interpreter's value; C03_emit_no_int_division / never_int_error: compiled code cannot silently truncate; C03_total: every string is parsed to a tree or rejected with an error (no hang, no crash); C03_parse_render(_value): usual precedence, left-associative - and /, unary minus, any redundant parentheses; C03_denote_meaning_*: the interpreter computes the documented meaning of each operator and function. On every generated expression the real parser, emitter (textually), interpreter and gcc-compiled code agree with the model and with an independent reference evaluator. PARTIAL: variable names containing operator or function names are excluded from the parse theorem (decidable predicate; malformed stream only).",
+        note=BASE_NOTE + "parseC/evalC is the specification of gcc's reading of the emitted text (trusted, validated against gcc on every emitted text). libm functions are oracles. Rounding of double operations is outside (exact regime; rounded cases are counted separately)."),
     "C04": dict(
         level="proof", design="DESIGN.md section 3, C04",
         technique="Lean 4 proofs about the shared one-step model Sympler/Dyn.lean (pair kernel with acts-on guards, own cutoff, symmetry factor): reciprocity, free-only, own cutoff, momentum invariance for every step count; correspondence of both force buffers of every particle with the real binary after every step in the exact-arithmetic regime; momentum oracle on the real runs",
